@@ -232,6 +232,14 @@ def match_known(w: Dict[str, Any], known: List[Dict[str, Any]]) -> Optional[Dict
 # --------------------------------------------------------------------------
 def _run_one(mod, case, timeout_s: float) -> Dict[str, Any]:
     t0 = time.time()
+    try:
+        # a watchdog that fired inside torch.no_grad().__enter__/__exit__ of an earlier case can leave autograd
+        # switched off in this worker; every case starts from the default
+        import torch
+
+        torch.set_grad_enabled(True)
+    except Exception:
+        pass
     old = signal.signal(signal.SIGALRM, _alarm)
     signal.setitimer(signal.ITIMER_REAL, timeout_s)
     try:
@@ -337,6 +345,21 @@ def run_check(prop: str, tier: str, seed: int, replay: Optional[str] = None) -> 
                         results[r["idx"]] = r
                 os.remove(out)
 
+    # ---------------- second chance for cases that were lost or hit the watchdog
+    # On a loaded host a stall can trip the per-case watchdog of trivial cases; before a case is declared
+    # inconclusive it is run once more, serially in the supervisor (bounded number, same watchdog).
+    if not serial:
+        retry = [(i, c) for i, c in indexed if results.get(i) is None or results[i].get("status") == "timeout"]
+        budget = int(getattr(mod, "RETRY_LIMIT", 48))
+        for i, c in retry[:budget]:
+            r = _run_one(mod, c, timeout_s)
+            r["idx"] = i
+            r["retried"] = True
+            results[i] = r
+        n_retried = len(retry[:budget])
+    else:
+        n_retried = 0
+
     # ---------------- merge
     known = load_known(prop)
     counters: Counter = Counter()
@@ -439,6 +462,7 @@ def run_check(prop: str, tier: str, seed: int, replay: Optional[str] = None) -> 
         "inconclusive_cases": len(inconclusive),
         "violating_witnesses": len(violations),
         "cases_generated": n,
+        "cases_retried_after_watchdog": n_retried,
     }
     if known_examples:
         coverage["known_finding_examples"] = jsonable(known_examples)
